@@ -206,6 +206,11 @@ class QuantMixin:
             n = z3.Length(S)
         snap = self.st.snapshot()
         ctx = list(self.quant_ctx)          # range assumptions of enclosing quantifiers (nested use)
+        if self.sub_bases:
+            # ... and the guards of the clause evaluation this quantifier occurs in (e.g. `isinstance(x, list) and
+            # all(...)`): the predicate is only meaningful, and only used, under them
+            b0 = self.sub_bases[0]
+            ctx += [c for c, ax in zip(self.pc[b0:], self.pc_axiom[b0:]) if not ax]
         ctx_f = z3.And(*ctx) if ctx else z3.BoolVal(True)
 
         def P(i):
